@@ -411,7 +411,7 @@ Section HeapRefines.
     Forall2 (ROut RPh) (heap_hist c h hz) (impl_hist c h z).
   Proof.
     intros F HP. unfold heap_hist, impl_hist.
-    apply (sim_run_hist (hstore c) (zstore c) c c EV RSh RPh); auto using hist_valid_rel.
+    apply (sim_run_hist (hstore c) (zstore c) c c EV RSh RPh false); auto using hist_valid_rel; try discriminate.
     - split; [reflexivity|apply Valid_nil].
     - intros n1 n2 [-> _]. reflexivity.
     - intros z1 z2 b [-> [H1 H2]]. cbn [s_begin hstore zstore]. destruct b.
